@@ -314,7 +314,13 @@ def gen_workload(rseed: int, tier: str) -> Dict[str, Any]:
             if nres == 0 or r < 0.55:
                 ap = {"F": False, "T": True}.get(ap_mode, g.random() < 0.5)
                 rend = "default" if rend_mode == "default" else g.choice(["default", "tagged", "bare"])
-                ops.append(["parse", g.choice(pool), ap, rend])
+                dsel = g.choice(pool)
+                op_ = ["parse", dsel, ap, rend]
+                if pristine[f"{dsel}:1"][0] == "db" and g.random() < 0.2:
+                    # the document is saved to this thread's file (always the same path, rewritten each time,
+                    # padded to one length, time stamps frozen: a coarse file-system clock) and parsed from there
+                    op_.append("path")
+                ops.append(op_)
                 nres += 1
             elif r < 0.8:
                 ops.append(["edit", g.randrange(nres), g.choice(EDITS)])
@@ -460,6 +466,32 @@ def execute(wl: Dict[str, Any], policy: S.Policy, step_cap: int = 20_000_000) ->
         del r, e
         count("fault:warm-parse")
 
+    # ---- files for path-based parses: one fixed path per thread, one common length, frozen time stamps
+    path_docs = [docs[str(op[1])] for ops_ in wl["threads"] for op in ops_ if op[0] == "parse" and len(op) > 4]
+    pad_len = max([len(x.encode("utf8")) for x in path_docs] + [0])
+    tmpdir = tempfile.mkdtemp(prefix="verif-e1-") if path_docs else None
+
+    def call_parse_path(t: int, text: str, ap: bool, rend: str) -> Any:
+        import pathlib
+        th = sc.cur
+        if th is not None:
+            th.untraced += 1
+        try:
+            data = text.encode("utf8")
+            data += b"\n" * (pad_len - len(data))      # trailing newlines carry no content
+            fp = os.path.join(tmpdir, f"thread{t}.dbml")
+            with open(fp, "wb") as fh:
+                fh.write(data)
+            os.utime(fp, ns=(1_000_000_000, 1_000_000_000))
+            count("fault:path-rewritten-same-size-same-mtime")
+        finally:
+            if th is not None:
+                th.untraced -= 1
+        kw: Dict[str, Any] = {"allow_properties": ap}
+        if rend in ("tagged", "bare"):
+            kw["sql_renderer"], kw["dbml_renderer"] = st["renderers"][rend]
+        return st["PyDBML"](pathlib.Path(fp), **kw)
+
     # ---- threads
     live: Dict[Tuple[int, int], Dict[str, Any]] = {}   # (thread, slot) -> {"db","expected","doc"}
     weak: List[Tuple[str, Any]] = []
@@ -489,12 +521,16 @@ def execute(wl: Dict[str, Any], policy: S.Policy, step_cap: int = 20_000_000) ->
                         slots.append(None)
                     continue
                 if op[0] == "parse":
-                    _, doc, ap, rend = op
+                    _, doc, ap, rend = op[:4]
+                    via_path = len(op) > 4 and op[4] == "path"
                     sc.in_parse += 1
                     if sc.parses_finished == 0 and sc.in_parse >= 2:
                         sc.cold_overlap = True
                     try:
-                        res, exc = call_parse(docs[str(doc)], ap, rend), None
+                        if via_path:
+                            res, exc = call_parse_path(t, docs[str(doc)], ap, rend), None
+                        else:
+                            res, exc = call_parse(docs[str(doc)], ap, rend), None
                     except Exception as ex:
                         res, exc = None, ex
                     th.untraced += 1
@@ -627,6 +663,9 @@ def execute(wl: Dict[str, Any], policy: S.Policy, step_cap: int = 20_000_000) ->
         if not st["parser_wrapped"]:
             count("parser-wrapper-skipped")
 
+    if tmpdir:
+        import shutil
+        shutil.rmtree(tmpdir, ignore_errors=True)
     out: Dict[str, Any] = {"counters": counters, "violations": violations, "schedule": sc.schedule_json(),
                            "policy": policy.describe(), "harness": harness,
                            "steps": sc.total_steps, "switches": len(sc.voluntary),
